@@ -180,7 +180,11 @@ def raw_bytes(b: bytes, k1: int, k2: int) -> str:
         return fail(P, exc_sig(ex))
     reach()
     if not same(whole, got):
-        return fail(P, 'BYTE-STREAM differs from the bytes form')
+        # an input with two errors: the whole byte string is decoded and checked before anything is
+        # scanned (a reader error anywhere wins), a stream reports whatever comes first
+        two = bool(whole and got and _is_err(whole[-1]) and _is_err(got[-1]) and whole[-1] != got[-1] and
+                   whole[-1][0] == 'ReaderError' and (got[-1][0] != 'ReaderError' or got[-1][1] < whole[-1][1]))
+        return fail(P, 'BYTE-STREAM differs from the bytes form', two_errors=two)
     return 'ok'
 
 
